@@ -11,6 +11,7 @@ import (
 	"fmt"
 	"go/token"
 	"go/types"
+	"os"
 	"sort"
 	"strings"
 
@@ -19,67 +20,198 @@ import (
 
 const iobPkg = "internal/iobroker"
 
-// connectAnchors are the constructs the model is built on.
-type connectAnchors struct {
-	Fn               *ssa.Function /* The admission function. */
-	Us, Other        *ssa.Parameter
-	Key              *ssa.Parameter
-	Proxy            *ssa.Parameter
-	Callers          []ssa.CallInstruction
-	FKey, FIn, FOut  *types.Var
-	FNoMore, FMu     *types.Var
-	FWg, FEvCh, FOch *types.Var
-	FBidir           *types.Var
-	Errs             []string
+// connectInst is the admission function as called from one entry point.
+type connectInst struct {
+	Call        ssa.CallInstruction
+	Entry       *ssa.Function
+	Own, Peer   string                        /* storage of this direction's / the other direction's cancel function */
+	Args        map[*ssa.Parameter]AV         /* what the entry passes: pointers to broker storage, constants */
+	ParamFields map[*ssa.Parameter]map[int]AV /* the same for struct parameters, per field */
 }
 
-// findConnect locates the admission function semantically: the callee of the
-// calls which pass the addresses of Broker.cancelIn / Broker.cancelOut.
+// connectAnchors are the constructs the model is built on.  Storage inside
+// the Broker is identified by what is done with it, not by field names: the
+// admission function is the function both ConnectIn and ConnectOut call; the
+// cancel slots are the func()-typed storage it fills on admission; the key is
+// the string storage its key parameter is written to; and so on.
+type connectAnchors struct {
+	Fn                *ssa.Function  /* The admission function. */
+	Us, Other         *ssa.Parameter /* The slot pointers, when they are passed as such (may be nil). */
+	Key               *ssa.Parameter
+	Proxy             *ssa.Parameter
+	Callers           []ssa.CallInstruction
+	Insts             []*connectInst
+	KeyLoc, NoMoreLoc string
+	SlotLocs          []string
+	FKey, FIn, FOut   *types.Var /* leaf fields (FIn == FOut when the slots are elements of one array) */
+	FNoMore, FMu      *types.Var
+	FWg, FEvCh, FOch  *types.Var
+	FBidir            *types.Var
+	Errs              []string
+}
+
+// brokerLeaf is one piece of storage inside the Broker struct.
+type brokerLeaf struct {
+	Path string
+	Var  *types.Var /* the field (for array elements: the array field) */
+	Type types.Type
+}
+
+// brokerLeaves enumerates the storage of the struct type t under prefix,
+// descending into struct-valued fields and fixed-size arrays.
+func brokerLeaves(t types.Type, prefix string, v *types.Var, depth int) []brokerLeaf {
+	if depth > 4 {
+		return nil
+	}
+	switch u := t.Underlying().(type) {
+	case *types.Struct:
+		if n := namedOf(t); nil != n && nil != n.Obj().Pkg() && !strings.HasPrefix(n.Obj().Pkg().Path(), ModPath) {
+			return []brokerLeaf{{prefix, v, t}} /* sync.Mutex and the like: opaque */
+		}
+		var out []brokerLeaf
+		for i := 0; i < u.NumFields(); i++ {
+			f := u.Field(i)
+			out = append(out, brokerLeaves(f.Type(), prefix+"."+f.Name(), f, depth+1)...)
+		}
+		return out
+	case *types.Array:
+		if u.Len() > 8 {
+			return []brokerLeaf{{prefix, v, t}}
+		}
+		var out []brokerLeaf
+		for i := int64(0); i < u.Len(); i++ {
+			out = append(out, brokerLeaves(u.Elem(), fmt.Sprintf("%s[%d]", prefix, i), v, depth+1)...)
+		}
+		return out
+	}
+	return []brokerLeaf{{prefix, v, t}}
+}
+
+// brokerPath renders an address rooted at recv as "b.field.sub[2]"; idx
+// evaluates index operands.  "" when the address is not rooted at recv.
+func brokerPath(addr, recv ssa.Value, idx func(ssa.Value) (int64, bool)) string {
+	switch x := addr.(type) {
+	case *ssa.FieldAddr:
+		base := ""
+		if x.X == recv || resolveCell(x.X) == recv {
+			base = "b"
+		} else {
+			base = brokerPath(x.X, recv, idx)
+		}
+		if "" == base {
+			return ""
+		}
+		st, ok := x.X.Type().Underlying().(*types.Pointer).Elem().Underlying().(*types.Struct)
+		if !ok {
+			return ""
+		}
+		return base + "." + st.Field(x.Field).Name()
+	case *ssa.IndexAddr:
+		base := brokerPath(x.X, recv, idx)
+		if "" == base {
+			return ""
+		}
+		if _, isArr := x.X.Type().Underlying().(*types.Pointer); !isArr {
+			return ""
+		}
+		k, ok := idx(x.Index)
+		if !ok {
+			return ""
+		}
+		return fmt.Sprintf("%s[%d]", base, k)
+	}
+	return ""
+}
+
+func isNiladicFunc(t types.Type) bool {
+	sig, ok := t.Underlying().(*types.Signature)
+	return ok && 0 == sig.Params().Len() && 0 == sig.Results().Len()
+}
+
+// findConnect locates the admission function and the broker's shared storage
+// semantically.
 func findConnect(p *Prog) *connectAnchors {
 	a := &connectAnchors{}
-	f := func(n string) *types.Var {
-		v := p.Field(iobPkg, "Broker", n)
-		if nil == v {
-			a.Errs = append(a.Errs, "field Broker."+n+" not found")
-		}
-		return v
+	pk := p.Pkg(iobPkg)
+	if nil == pk {
+		a.Errs = append(a.Errs, "package iobroker not found")
+		return a
 	}
-	a.FKey, a.FIn, a.FOut = f("key"), f("cancelIn"), f("cancelOut")
-	a.FNoMore, a.FMu, a.FWg = f("noMore"), f("mu"), f("wg")
-	a.FEvCh, a.FOch = f("evCh"), f("och")
-	a.FBidir = p.Field(iobPkg, "Broker", "bidirKey") /* Optional. */
+	bt, _ := pk.Types.Scope().Lookup("Broker").(*types.TypeName)
+	if nil == bt {
+		a.Errs = append(a.Errs, "type Broker not found")
+		return a
+	}
+	leaves := brokerLeaves(bt.Type(), "b", nil, 0)
+	leafAt := map[string]brokerLeaf{}
+	for _, l := range leaves {
+		leafAt[l.Path] = l
+		if isNiladicFunc(l.Type) {
+			a.SlotLocs = append(a.SlotLocs, l.Path)
+		}
+	}
+	/* The function both entry points call. */
+	entries := map[string]*ssa.Function{"ConnectIn": p.Func(iobPkg, "Broker", "ConnectIn"), "ConnectOut": p.Func(iobPkg, "Broker", "ConnectOut")}
+	calledBy := map[*ssa.Function]map[string]ssa.CallInstruction{}
+	for name, e := range entries {
+		if nil == e {
+			a.Errs = append(a.Errs, "method Broker."+name+" not found")
+			continue
+		}
+		for _, f := range withAnons(e) {
+			eachInstr(f, func(i ssa.Instruction) {
+				ci, ok := i.(ssa.CallInstruction)
+				if !ok {
+					return
+				}
+				sc := ci.Common().StaticCallee()
+				if nil == sc || !inModule(sc) || nil == sc.Blocks || nil == sc.Pkg || !strings.HasSuffix(sc.Pkg.Pkg.Path(), iobPkg) {
+					return
+				}
+				if nil == calledBy[sc] {
+					calledBy[sc] = map[string]ssa.CallInstruction{}
+				}
+				calledBy[sc][name] = ci
+			})
+		}
+	}
 	if 0 != len(a.Errs) {
 		return a
 	}
-	cands := map[*ssa.Function]bool{}
-	for _, fn := range p.Funcs() {
-		eachInstr(fn, func(i ssa.Instruction) {
-			c := callCommon(i)
-			if nil == c || nil == c.StaticCallee() {
-				return
-			}
-			for _, arg := range c.Args {
-				if fv, _ := fieldAddrOf(arg); fv == a.FIn || fv == a.FOut {
-					cands[c.StaticCallee()] = true
-					a.Callers = append(a.Callers, i.(ssa.CallInstruction))
-					return
+	locksBroker := func(f *ssa.Function) bool {
+		found := false
+		eachInstr(f, func(i ssa.Instruction) {
+			if c := callCommon(i); nil != c && "(*sync.Mutex).Lock" == calleeName(c) && 0 != len(f.Params) {
+				if "" != brokerPath(c.Args[0], f.Params[0], func(ssa.Value) (int64, bool) { return 0, false }) {
+					found = true
 				}
 			}
 		})
+		return found
+	}
+	var cands []*ssa.Function
+	for f, by := range calledBy {
+		if 2 == len(by) && locksBroker(f) {
+			cands = append(cands, f)
+		}
 	}
 	if 1 != len(cands) {
-		a.Errs = append(a.Errs, fmt.Sprintf("%d functions receive the address of Broker.cancelIn/cancelOut, exactly one expected", len(cands)))
+		a.Errs = append(a.Errs, fmt.Sprintf("%d functions are called by both ConnectIn and ConnectOut and take a Broker lock; exactly one (the admission function) expected", len(cands)))
 		return a
 	}
-	for fn := range cands {
-		a.Fn = fn
+	a.Fn = cands[0]
+	for _, name := range []string{"ConnectIn", "ConnectOut"} {
+		ci := calledBy[a.Fn][name]
+		a.Callers = append(a.Callers, ci)
+		a.Insts = append(a.Insts, &connectInst{Call: ci, Entry: entries[name]})
 	}
-	/* Parameters: the two *func() in order are own/peer; the func-typed one
-	is the proxy; the key is the string parameter stored into Broker.key. */
+	recv := a.Fn.Params[0]
+	noIdx := func(ssa.Value) (int64, bool) { return 0, false }
+	/* Parameters. */
 	for _, pa := range a.Fn.Params {
 		switch t := pa.Type().Underlying().(type) {
 		case *types.Pointer:
-			if _, ok := t.Elem().Underlying().(*types.Signature); ok {
+			if isNiladicFunc(t.Elem()) {
 				if nil == a.Us {
 					a.Us = pa
 				} else if nil == a.Other {
@@ -92,28 +224,145 @@ func findConnect(p *Prog) *connectAnchors {
 			}
 		}
 	}
+	/* Key: the string parameter stored into string storage of the broker. */
 	eachInstr(a.Fn, func(i ssa.Instruction) {
 		st, ok := i.(*ssa.Store)
 		if !ok {
 			return
 		}
-		if fv, _ := fieldAddrOf(st.Addr); fv != a.FKey {
+		path := brokerPath(st.Addr, recv, noIdx)
+		l, ok := leafAt[path]
+		if !ok {
+			return
+		}
+		if b, isB := l.Type.Underlying().(*types.Basic); !isB || types.String != b.Kind() {
 			return
 		}
 		if pa := rootParam(st.Val); nil != pa && nil == a.Key {
-			if b, ok := pa.Type().Underlying().(*types.Basic); ok && types.String == b.Kind() {
-				a.Key = pa
+			a.Key, a.KeyLoc, a.FKey = pa, path, l.Var
+		}
+	})
+	/* The shutdown flag: boolean storage of the broker the function reads. */
+	eachInstr(a.Fn, func(i ssa.Instruction) {
+		u, ok := i.(*ssa.UnOp)
+		if !ok || token.MUL != u.Op {
+			return
+		}
+		path := brokerPath(u.X, recv, noIdx)
+		if l, ok := leafAt[path]; ok && isBoolType(l.Type) && "" == a.NoMoreLoc {
+			a.NoMoreLoc, a.FNoMore = path, l.Var
+		}
+	})
+	/* Mutex, wait group, channels. */
+	eachInstr(a.Fn, func(i ssa.Instruction) {
+		c := callCommon(i)
+		if nil == c || 0 == len(c.Args) {
+			return
+		}
+		path := brokerPath(c.Args[0], recv, noIdx)
+		l, ok := leafAt[path]
+		if !ok {
+			return
+		}
+		switch calleeName(c) {
+		case "(*sync.Mutex).Lock":
+			if nil == a.FMu {
+				a.FMu = l.Var
+			}
+		case "(*sync.WaitGroup).Add":
+			if nil == a.FWg {
+				a.FWg = l.Var
 			}
 		}
 	})
-	if nil == a.Us || nil == a.Other {
-		a.Errs = append(a.Errs, "admission function has no own/peer *func() parameters")
+	for _, l := range leaves {
+		ch, ok := l.Type.Underlying().(*types.Chan)
+		if !ok {
+			continue
+		}
+		if n := namedOf(ch.Elem()); nil != n {
+			switch n.Obj().Name() {
+			case "Event":
+				if nil == a.FEvCh {
+					a.FEvCh = l.Var
+				}
+			case "CLine":
+				if nil == a.FOch {
+					a.FOch = l.Var
+				}
+			}
+		}
+	}
+	a.FBidir = p.Field(iobPkg, "Broker", "bidirKey") /* Optional. */
+	for what, v := range map[string]*types.Var{"key storage": a.FKey, "shutdown flag": a.FNoMore, "mutex": a.FMu, "wait group": a.FWg, "event channel": a.FEvCh, "operator channel": a.FOch} {
+		if nil == v {
+			a.Errs = append(a.Errs, "the broker's "+what+" was not identified")
+		}
 	}
 	if nil == a.Proxy {
 		a.Errs = append(a.Errs, "admission function has no proxy function parameter")
 	}
 	if nil == a.Key {
-		a.Errs = append(a.Errs, "no string parameter of the admission function is stored into Broker.key")
+		a.Errs = append(a.Errs, "no string parameter of the admission function is stored into the broker")
+	}
+	if len(a.SlotLocs) < 2 {
+		a.Errs = append(a.Errs, fmt.Sprintf("%d func() slots in the Broker, two expected", len(a.SlotLocs)))
+	}
+	if 0 != len(a.Errs) {
+		return a
+	}
+	/* What each entry passes. */
+	for _, in := range a.Insts {
+		in.Args, in.ParamFields = map[*ssa.Parameter]AV{}, map[*ssa.Parameter]map[int]AV{}
+		crecv := ssa.Value(nil)
+		if e := in.Call.Parent(); 0 != len(e.Params) {
+			crecv = resolveFree(e.Params[0])
+		}
+		top := in.Call.Parent()
+		for nil != top.Parent() {
+			top = top.Parent()
+		}
+		if 0 != len(top.Params) {
+			crecv = top.Params[0]
+		}
+		argAV := func(v ssa.Value) AV {
+			v = resolveCell(v)
+			if c, ok := v.(*ssa.Const); ok {
+				return constAV(c)
+			}
+			cidx := func(x ssa.Value) (int64, bool) { return constInt(resolveCell(x)) }
+			if path := brokerPath(resolveFree(v), crecv, cidx); "" != path {
+				return AV{K: avPtr, S: path}
+			}
+			return avU
+		}
+		for k, pa := range a.Fn.Params {
+			if 0 == k || k >= len(in.Call.Common().Args) {
+				continue
+			}
+			arg := in.Call.Common().Args[k]
+			if _, isStruct := pa.Type().Underlying().(*types.Struct); isStruct {
+				fields := map[int]AV{}
+				if ld, ok := arg.(*ssa.UnOp); ok && token.MUL == ld.Op {
+					st := pa.Type().Underlying().(*types.Struct)
+					for f := 0; f < st.NumFields(); f++ {
+						if w := localStructField(ld.X, f, 0); nil != w {
+							fields[f] = argAV(w)
+						}
+					}
+				}
+				in.ParamFields[pa] = fields
+				continue
+			}
+			if av := argAV(arg); avUnknown != av.K {
+				in.Args[pa] = av
+			}
+		}
+	}
+	/* Leaf fields of the slots, for the rules which look outside the
+	admission function. */
+	if len(a.SlotLocs) >= 2 {
+		a.FIn, a.FOut = leafAt[a.SlotLocs[0]].Var, leafAt[a.SlotLocs[1]].Var
 	}
 	return a
 }
@@ -316,28 +565,54 @@ func buildConnectModel(p *Prog, a *connectAnchors) *connectModel {
 	recvB := fn.Params[0]
 
 	isBrokerField := func(addr ssa.Value, f *types.Var) bool {
-		fv, base := fieldAddrOf(addr)
-		return nil != fv && fv == f && base == ssa.Value(recvB)
+		fv, _ := fieldAddrOf(addr)
+		return nil != fv && fv == f && "" != brokerPath(addr, recvB, func(v ssa.Value) (int64, bool) { return constInt(v) })
 	}
-	locOf := func(addr ssa.Value) string {
-		switch {
-		case addr == ssa.Value(a.Us):
-			return "*own"
-		case addr == ssa.Value(a.Other):
-			return "*peer"
-		case isBrokerField(addr, a.FKey):
-			return "b.key"
-		case isBrokerField(addr, a.FNoMore):
-			return "b.noMore"
-		case isBrokerField(addr, a.FIn):
-			return "b.cancelIn(direct)"
-		case isBrokerField(addr, a.FOut):
-			return "b.cancelOut(direct)"
+	/* Raw locations are paths into the Broker ("b.cur.stop[1]") or local
+	variables; names maps the paths which matter to the model's names. */
+	var inst *connectInst
+	names := map[string]string{}
+	discovering := false
+	rawLoc := func(r *Run, addr ssa.Value) string {
+		idx := func(v ssa.Value) (int64, bool) {
+			if k, ok := constInt(v); ok {
+				return k, true
+			}
+			if a := r.Eval(v); avInt == a.K {
+				return a.N, true
+			}
+			return 0, false
 		}
-		if al, ok := addr.(*ssa.Alloc); ok {
-			return fmt.Sprintf("local:%s@%p", al.Comment, al)
+		if path := brokerPath(addr, recvB, idx); "" != path {
+			return path
+		}
+		switch x := addr.(type) {
+		case *ssa.Alloc:
+			return fmt.Sprintf("local:%s@%p", x.Comment, x)
+		case *ssa.FieldAddr:
+			if al, ok := x.X.(*ssa.Alloc); ok {
+				return fmt.Sprintf("local:%s@%p#f%d", al.Comment, al, x.Field)
+			}
 		}
 		return ""
+	}
+	locOfRun := func(r *Run, addr ssa.Value) string {
+		raw := rawLoc(r, addr)
+		if n, ok := names[raw]; ok {
+			return n
+		}
+		if strings.HasPrefix(raw, "b.") && !discovering {
+			return "" /* broker storage the model does not follow */
+		}
+		return raw
+	}
+	mapPtr := func(av AV) AV {
+		if avPtr == av.K {
+			if n, ok := names[av.S]; ok {
+				av.S = n
+			}
+		}
+		return av
 	}
 	shared := func(loc string) bool { return strings.HasPrefix(loc, "*") || strings.HasPrefix(loc, "b.") }
 
@@ -345,14 +620,19 @@ func buildConnectModel(p *Prog, a *connectAnchors) *connectModel {
 
 	var cur connectValuation
 	mach := &Machine{
-		Fn:    fn,
-		LocOf: locOf,
+		Fn:       fn,
+		LocOfRun: locOfRun,
 		Param: func(v ssa.Value) AV {
 			if v == ssa.Value(a.Key) {
 				if cur.KeyEmpty {
 					return avEmptyS
 				}
 				return avStrClass("K")
+			}
+			if pa, ok := v.(*ssa.Parameter); ok && nil != inst {
+				if av, ok := inst.Args[pa]; ok {
+					return mapPtr(av)
+				}
 			}
 			return avNonNil
 		},
@@ -401,7 +681,7 @@ func buildConnectModel(p *Prog, a *connectAnchors) *connectModel {
 		switch x := i.(type) {
 		case *ssa.UnOp:
 			if token.MUL == x.Op {
-				if l := locOf(x.X); "" != l {
+				if l := r.locOf(x.X); "" != l {
 					noteAccess("load", l)
 					if strings.Contains(l, "(direct)") {
 						r.Emit("direct-field-access:%s", l)
@@ -411,7 +691,33 @@ func buildConnectModel(p *Prog, a *connectAnchors) *connectModel {
 				r.Emit("blocking-op:recv")
 			}
 		case *ssa.Store:
-			if l := locOf(x.Addr); "" != l && shared(l) {
+			/* A struct parameter spilled to its local: its fields hold
+			what the entry point passed. */
+			/* Whole-struct copy between locals (value receivers of
+			small helper methods): the fields travel along. */
+			if ld, ok := x.Val.(*ssa.UnOp); ok && token.MUL == ld.Op {
+				if src, ok := ld.X.(*ssa.Alloc); ok {
+					if dst, ok := x.Addr.(*ssa.Alloc); ok {
+						if st, isStruct := dst.Type().Underlying().(*types.Pointer).Elem().Underlying().(*types.Struct); isStruct {
+							for f := 0; f < st.NumFields(); f++ {
+								if av, ok := r.Mem[fmt.Sprintf("local:%s@%p#f%d", src.Comment, src, f)]; ok {
+									r.Mem[fmt.Sprintf("local:%s@%p#f%d", dst.Comment, dst, f)] = av
+								}
+							}
+						}
+					}
+				}
+			}
+			if pa, ok := x.Val.(*ssa.Parameter); ok && nil != inst {
+				if fields, ok := inst.ParamFields[pa]; ok {
+					if al, ok := x.Addr.(*ssa.Alloc); ok {
+						for f, av := range fields {
+							r.Mem[fmt.Sprintf("local:%s@%p#f%d", al.Comment, al, f)] = mapPtr(av)
+						}
+					}
+				}
+			}
+			if l := r.locOf(x.Addr); "" != l && shared(l) {
 				noteAccess("store", l)
 				r.Emit("store:%s=%s", l, r.Eval(x.Val))
 				if strings.Contains(l, "(direct)") {
@@ -434,7 +740,7 @@ func buildConnectModel(p *Prog, a *connectAnchors) *connectModel {
 			}
 		case *ssa.Go:
 			c := x.Common()
-			if u, ok := c.Value.(*ssa.UnOp); ok && token.MUL == u.Op && "*peer" == locOf(u.X) {
+			if u, ok := c.Value.(*ssa.UnOp); ok && token.MUL == u.Op && "*peer" == r.locOf(u.X) {
 				r.Emit("cancel-peer")
 			} else {
 				r.Emit("go:%s", calleeName(c))
@@ -512,7 +818,7 @@ func buildConnectModel(p *Prog, a *connectAnchors) *connectModel {
 					}
 					/* And the key is what this attempt stored, unless the
 					code failed to store it. */
-				} else if u, ok := c.Value.(*ssa.UnOp); ok && token.MUL == u.Op && "*peer" == locOf(u.X) {
+				} else if u, ok := c.Value.(*ssa.UnOp); ok && token.MUL == u.Op && "*peer" == r.locOf(u.X) {
 					r.Emit("cancel-peer")
 				}
 			}
@@ -520,49 +826,94 @@ func buildConnectModel(p *Prog, a *connectAnchors) *connectModel {
 		return false
 	}
 
-	for _, noMore := range []bool{false, true} {
-		for _, keyEmpty := range []bool{false, true} {
-			for _, bkey := range []string{"", "K", "O"} {
-				for _, us := range []bool{false, true} {
-					for _, other := range []bool{false, true} {
-						for _, perr := range []bool{false, true} {
-							for _, peerExit := range []bool{false, true} {
-								if keyEmpty && "K" == bkey {
-									continue /* Same as b.key="" */
-								}
-								cur = connectValuation{noMore, keyEmpty, bkey, us, other, perr, peerExit}
-								if !cur.expectAdmit() && (perr || peerExit) {
-									continue /* Only matter after admission. */
-								}
-								mem := map[string]AV{
-									"b.noMore": avBoolOf(noMore),
-									"*own":     avNilV,
-									"*peer":    avNilV,
-								}
-								switch bkey {
-								case "":
-									mem["b.key"] = avEmptyS
-								case "K":
-									mem["b.key"] = avStrClass("K")
-								case "O":
-									mem["b.key"] = avStrClass("O")
-								}
-								if us {
-									mem["*own"] = avNonNil
-								}
-								if other {
-									mem["*peer"] = avNonNil
-								}
-								paths, trunc := mach.Explore(mem)
-								m.Truncated = m.Truncated || trunc
-								for _, r := range paths {
-									m.Paths = append(m.Paths, connectPath{cur, r})
+	for k, in := range a.Insts {
+		inst = in
+		/* Discovery: an admissible attempt on an idle broker shows which
+		storage receives this direction's cancel function and the key. */
+		names = map[string]string{}
+		discovering = true
+		cur = connectValuation{}
+		dmem := map[string]AV{}
+		for _, sl := range a.SlotLocs {
+			dmem[sl] = avNilV
+		}
+		dmem[a.KeyLoc], dmem[a.NoMoreLoc] = avEmptyS, avFalse
+		dpaths, _ := mach.Explore(dmem)
+		discovering = false
+		in.Own, in.Peer = "", ""
+		for _, dr := range dpaths {
+			for _, t := range dr.Trace {
+				for _, sl := range a.SlotLocs {
+					if strings.HasPrefix(t, "store:"+sl+"=non-nil") && "" == in.Own {
+						in.Own = sl
+					}
+				}
+			}
+		}
+		for _, sl := range a.SlotLocs {
+			if sl != in.Own && "" == in.Peer {
+				in.Peer = sl
+			}
+		}
+		if "" == in.Own || "" == in.Peer || 2 != len(a.SlotLocs) {
+			a.Errs = append(a.Errs, fmt.Sprintf("as called from %s the admission function does not store a cancel function into one of the broker's %d func() slots on the idle, admissible path", fnName(in.Entry), len(a.SlotLocs)))
+			continue
+		}
+		names = map[string]string{in.Own: "*own", in.Peer: "*peer", a.KeyLoc: "b.key", a.NoMoreLoc: "b.noMore"}
+		unlockedBefore := len(unlocked)
+		_ = unlockedBefore
+		_ = k
+		for _, noMore := range []bool{false, true} {
+			for _, keyEmpty := range []bool{false, true} {
+				for _, bkey := range []string{"", "K", "O"} {
+					for _, us := range []bool{false, true} {
+						for _, other := range []bool{false, true} {
+							for _, perr := range []bool{false, true} {
+								for _, peerExit := range []bool{false, true} {
+									if keyEmpty && "K" == bkey {
+										continue /* Same as b.key="" */
+									}
+									cur = connectValuation{noMore, keyEmpty, bkey, us, other, perr, peerExit}
+									if !cur.expectAdmit() && (perr || peerExit) {
+										continue /* Only matter after admission. */
+									}
+									mem := map[string]AV{
+										"b.noMore": avBoolOf(noMore),
+										"*own":     avNilV,
+										"*peer":    avNilV,
+									}
+									switch bkey {
+									case "":
+										mem["b.key"] = avEmptyS
+									case "K":
+										mem["b.key"] = avStrClass("K")
+									case "O":
+										mem["b.key"] = avStrClass("O")
+									}
+									if us {
+										mem["*own"] = avNonNil
+									}
+									if other {
+										mem["*peer"] = avNonNil
+									}
+									paths, trunc := mach.Explore(mem)
+									m.Truncated = m.Truncated || trunc
+									for _, r := range paths {
+										m.Paths = append(m.Paths, connectPath{cur, r})
+									}
 								}
 							}
 						}
 					}
 				}
 			}
+		}
+	}
+	inst = nil
+	if "" != os.Getenv("CRS_MODELDEBUG") {
+		fmt.Printf("MODEL fn=%s key=%s noMore=%s slots=%v errs=%v\n", fnName(a.Fn), a.KeyLoc, a.NoMoreLoc, a.SlotLocs, a.Errs)
+		for _, in := range a.Insts {
+			fmt.Printf("MODEL inst entry=%s own=%s peer=%s args=%v fields=%v\n", fnName(in.Entry), in.Own, in.Peer, in.Args, in.ParamFields)
 		}
 	}
 	for u := range unlocked {
